@@ -411,7 +411,7 @@ pub fn run_flavour<T: Kt>(m: &mut FileDbMap<T>, f: usize, expect: usize) -> Out<
                 drain(Interleave { it, f: move || {
                     if !probe.is_empty() {
                         let _ = m2.get(&probe[i % probe.len()][..]);
-                        let _ = m2.includes_key(&[0xEEu8, 0x01, (i % 251) as u8][..]);
+                        let _ = m2.includes_key(&probe[(i + 1) % probe.len()][..]);
                         i += 1;
                     }
                 } }, expect).map(kv)
